@@ -695,6 +695,195 @@ fn run_free(work: &Path, f: &Free, src: &Sources, hook: bool, patience: u64) -> 
     )
 }
 
+
+// --------------------------------------------------------------------------- source-update runs (round 11)
+
+/// A controlled history with a SOURCE UPDATE placed while one loader waits for the lock.
+/// `scen=planted`: the lock is a leftover/foreign one; while L0 waits at `poll` the controller plays the
+/// lock's owner: installs a library built from the OLD sources, then rewrites the sources (newer than
+/// that library), then removes the lock.  `scen=live`: L0 holds the lock and compiles the old sources
+/// (paused at `unlock`), L1 waits at `poll`; the sources are rewritten; L0 unlocks and loads, then L1 goes on.
+/// `what` = which sources are rewritten (p, s, ps); generation 1 has version 1 of exactly those.
+#[derive(Clone, Debug)]
+struct Upd {
+    id: String,
+    scen: String,
+    scanner: bool,
+    what: String,
+    threads: bool,
+}
+
+fn upd_spec(u: &Upd) -> String {
+    format!("upd {} scen={} scanner={} what={} threads={}", u.id, u.scen, u.scanner as u8, u.what, u.threads as u8)
+}
+
+fn parse_upd(line: &str) -> Option<Upd> {
+    let mut it = line.split_whitespace();
+    if it.next()? != "upd" {
+        return None;
+    }
+    let id = it.next()?.to_string();
+    let m = kv(line);
+    Some(Upd { id, scen: m.get("scen")?.clone(), scanner: m.get("scanner")? == "1", what: m.get("what").cloned().unwrap_or_else(|| "p".into()), threads: m.get("threads").map(|s| s == "1").unwrap_or(false) })
+}
+
+fn run_upd(work: &Path, u: &Upd, src: &Sources, patience: u64) -> String {
+    let planted = u.scen == "planted";
+    let st = Setup { lib: "none".into(), lock: planted, temp: false, broken: false, scanner: u.scanner, stalekind: "p".into(), gap: GAPS[0] };
+    setup_case(work, &st, src);
+    let what = if u.scanner { u.what.as_str() } else { "p" };
+    let (p1, s1) = (if what.contains('p') { 1u32 } else { 2 }, if !u.scanner { 0u32 } else if what.contains('s') { 1 } else { 2 });
+    let s2 = if u.scanner { 2u32 } else { 0 };
+    let vers = [p1 + 10 * s1, 2 + 10 * s2];
+    let sdir = work.join("src");
+    let now_s = SystemTime::now().duration_since(SystemTime::UNIX_EPOCH).unwrap().as_secs();
+    let at = |back: u64| SystemTime::UNIX_EPOCH + Duration::from_secs(now_s - back);
+    // generation 1 of the sources, 1000 s old
+    fs::write(sdir.join("parser.c"), &src.parser_c[&(p1, u.scanner)]).unwrap();
+    set_mtime(&sdir.join("parser.c"), at(1000));
+    if u.scanner {
+        fs::write(sdir.join("scanner.c"), scanner_c(s1)).unwrap();
+        set_mtime(&sdir.join("scanner.c"), at(1000));
+    }
+    let n = if planted { 1 } else { 2 };
+    let ids: Vec<String> = (0..n).map(|i| format!("L{i}")).collect();
+    let mut ctl = Ctl::new(work);
+    let mut children: Vec<Child> = Vec::new();
+    let mut child_of: Vec<usize> = Vec::new();
+    if u.threads && n > 1 {
+        children.push(spawn_loader(work, &ids.join(","), true, Some(600_000)));
+        child_of = vec![0; n];
+    } else {
+        for (i, id) in ids.iter().enumerate() {
+            children.push(spawn_loader(work, id, true, Some(600_000)));
+            child_of.push(i);
+        }
+    }
+    let limit = test_limit(Duration::from_secs(20 * patience), patience);
+    let mut gen = 1usize;
+    let mut trace: Vec<String> = Vec::new();
+    let mut checkgen = vec![0usize; n];
+    let callgen = vec![1usize; n];
+    let mut results: Vec<String> = vec!["dead".into(); n];
+    let mut problem = String::new();
+    // run loader `i` until it is paused at point `until` (None: until it returns)
+    fn go(ctl: &mut Ctl, ids: &[String], children: &mut [Child], child_of: &[usize], i: usize, until: Option<&str>, limit: Duration, gen: usize,
+          trace: &mut Vec<String>, checkgen: &mut [usize], results: &mut [String], problem: &mut String) {
+        if !problem.is_empty() {
+            return;
+        }
+        for _ in 0..64 {
+            match ctl.wait_for(&ids[i], &mut children[child_of[i]], limit) {
+                Ev::Point(p) => {
+                    if Some(p.as_str()) == until {
+                        return;
+                    }
+                    if p == "check" {
+                        checkgen[i] = gen;
+                    }
+                    trace.push(format!("{i}:{p}"));
+                    ctl.release(&ids[i], false);
+                }
+                Ev::Done(r) => {
+                    trace.push(format!("{i}:exit"));
+                    results[i] = r;
+                    if until.is_some() {
+                        *problem = format!("L{i}-returned-before-{}", until.unwrap());
+                    }
+                    return;
+                }
+                Ev::Dead => {
+                    *problem = format!("L{i}-died");
+                    return;
+                }
+                Ev::Hang => {
+                    *problem = format!("L{i}-hang-before-{}", until.unwrap_or("exit"));
+                    return;
+                }
+            }
+        }
+        *problem = format!("L{i}-loops");
+    }
+    macro_rules! go {
+        ($i:expr, $until:expr) => {
+            go(&mut ctl, &ids, &mut children, &child_of, $i, $until, limit, gen, &mut trace, &mut checkgen, &mut results, &mut problem)
+        };
+    }
+    let rewrite = |t: SystemTime| {
+        if what.contains('p') {
+            fs::write(sdir.join("parser.c.new"), &src.parser_c[&(2, u.scanner)]).unwrap();
+            set_mtime(&sdir.join("parser.c.new"), t);
+            fs::rename(sdir.join("parser.c.new"), sdir.join("parser.c")).unwrap();
+        }
+        if u.scanner && what.contains('s') {
+            fs::write(sdir.join("scanner.c.new"), scanner_c(2)).unwrap();
+            set_mtime(&sdir.join("scanner.c.new"), t);
+            fs::rename(sdir.join("scanner.c.new"), sdir.join("scanner.c")).unwrap();
+        }
+    };
+    if planted {
+        go!(0, Some("poll")); // check (no library) -> lock (taken by someone else) -> waits
+        if problem.is_empty() {
+            // the lock's owner: library from the OLD sources appears, THEN the sources are regenerated, THEN the lock goes
+            let tmp = work.join("lib/.owner.tmp");
+            fs::copy(&src.prebuilt[&(p1, s1)], &tmp).unwrap();
+            set_mtime(&tmp, at(500));
+            fs::rename(&tmp, lib_path(work)).unwrap();
+            trace.push("owner:install-old-lib".into());
+            rewrite(at(200));
+            gen = 2;
+            trace.push("UPDATE".into());
+            let _ = fs::remove_file(lock_path(work));
+            trace.push("owner:unlock".into());
+        }
+        go!(0, None);
+    } else {
+        go!(0, Some("compile")); // L0: check, lock (wins)
+        go!(1, Some("poll")); // L1: check, lock (loses), waits
+        go!(0, Some("unlock")); // L0 compiles the OLD sources and renames the library into place
+        if problem.is_empty() {
+            let lm = fs::metadata(lib_path(work)).and_then(|m| m.modified()).unwrap_or_else(|_| SystemTime::now());
+            rewrite(lm + Duration::from_secs(2));
+            gen = 2;
+            trace.push("UPDATE".into());
+        }
+        go!(0, None); // L0 unlocks, loads what it built
+        go!(1, None); // L1's wait ends: its re-check happens after the rewrite completed
+    }
+    for c in children.iter_mut() {
+        if let Ok(None) = c.try_wait() {
+            if problem.is_empty() {
+                // threads of one process: wait for the process to end normally
+                let t0 = Instant::now();
+                while let Ok(None) = c.try_wait() {
+                    if t0.elapsed() > Duration::from_secs(5) {
+                        break;
+                    }
+                    std::thread::sleep(Duration::from_millis(2));
+                }
+            }
+            let _ = c.kill();
+        }
+        let _ = c.wait();
+    }
+    drop(ctl);
+    let finallib = probe_lib(work);
+    let lockleft = lock_path(work).exists();
+    let later = if problem.is_empty() { later_load(work, Some(400), Duration::from_secs(60 * patience)) } else { "skip".into() };
+    let j = |v: &[usize]| v.iter().map(|x| x.to_string()).collect::<Vec<_>>().join(";");
+    format!(
+        "n={n} results={} checkgen={} callgen={} srcgen={gen} vers={},{} finallib={finallib} lockleft={} later={later} trace={} problem={}",
+        results.join(";"),
+        j(&checkgen),
+        j(&callgen),
+        vers[0],
+        vers[1],
+        lockleft as u8,
+        trace.join(","),
+        if problem.is_empty() { "-" } else { &problem }
+    )
+}
+
 /// The REAL default lock timeout (no `TS_VERIF_LOCK_TIMEOUT_MS`, no schedule): a stale lock left by a
 /// dead loader, the library absent, one later loader.  It has to come back with a working language
 /// within `bound_ms` (the protocol's 30 s + poll slack + compile time).  Not a timing-sensitive verdict:
@@ -823,12 +1012,15 @@ fn main() {
     // ---- work list
     let mut scheds: Vec<Sched> = Vec::new();
     let mut frees: Vec<Free> = Vec::new();
+    let mut upds: Vec<Upd> = Vec::new();
     if let Some(f) = &spec_file {
         for line in fs::read_to_string(f).unwrap().lines() {
             if let Some(s) = parse_sched(line) {
                 scheds.push(s);
             } else if let Some(fr) = parse_free(line) {
                 frees.push(fr);
+            } else if let Some(u) = parse_upd(line) {
+                upds.push(u);
             }
         }
     } else {
@@ -855,6 +1047,19 @@ fn main() {
                     s.setup.gap = GAPS[scheds.len() % 4];
                     s.raw = format!("{} scanner={} stalekind={} gap={} threads={}", s.raw, s.setup.scanner as u8, s.setup.stalekind, s.setup.gap, s.threads as u8);
                     scheds.push(s);
+                }
+            }
+        }
+        // source-update histories (round 11): both scenarios x scanner/no scanner x which source is rewritten
+        {
+            let mut k = 0;
+            for scen in ["planted", "live"] {
+                for (scanner, what) in [(false, "p"), (true, "p"), (true, "s"), (true, "ps")] {
+                    let reps = if thorough { 4 } else { 1 };
+                    for _ in 0..reps {
+                        upds.push(Upd { id: format!("u{k}"), scen: scen.into(), scanner, what: what.into(), threads: false });
+                        k += 1;
+                    }
                 }
             }
         }
@@ -886,6 +1091,7 @@ fn main() {
     enum Job {
         S(Sched),
         F(Free),
+        U(Upd),
         D,
     }
     let mut jobs: Vec<(usize, Job)> = Vec::new();
@@ -900,6 +1106,11 @@ fn main() {
     if hook {
         for s in scheds {
             jobs.push((jobs.len(), Job::S(s)));
+        }
+    }
+    if hook {
+        for u in upds {
+            jobs.push((jobs.len(), Job::U(u)));
         }
     }
     let skipped_sched = if hook { 0 } else { 1 };
@@ -949,6 +1160,21 @@ fn main() {
                         }
                     }
                     format!("spec {} {}\ncase {} kind=ctl {} {}", s.id, s.raw, s.id, s.raw.splitn(3, ' ').nth(2).unwrap_or(""), r)
+                }
+                Job::U(u) => {
+                    let mut r = run_upd(&work, &u, &src, 1);
+                    if r.contains("-hang-") || r.contains("later=hang") {
+                        let _ = fs::remove_dir_all(&work);
+                        r = run_upd(&root.join(format!("case{idx}r")), &u, &src, 4);
+                        let _ = fs::remove_dir_all(root.join(format!("case{idx}r")));
+                        if r.contains("-hang-") || r.contains("later=hang") {
+                            r.push_str(" timing=1");
+                        } else {
+                            r.push_str(" retried=1");
+                        }
+                    }
+                    let spec = upd_spec(&u);
+                    format!("spec {} {}\ncase {} kind=upd {} {}", u.id, spec, u.id, spec.splitn(3, ' ').nth(2).unwrap_or(""), r)
                 }
                 Job::D => {
                     let r = run_default(&root, idx, &src);
